@@ -234,6 +234,9 @@ impl InnerLocustDB {
     }
 
     pub fn ingest_efficient(&self, mut events: EventBuffer) {
+        // A table buffer without rows adds nothing: it must not create the table or its catalogue
+        // rows either (the table would have no partition to be restored from after a flush)
+        events.tables.retain(|_, table_buffer| table_buffer.len() > 0);
         let (wal_size, wal_condvar) = &self.wal_size;
         // Holding wal lock ensures single-threaded ingestion
         let mut wal_size = wal_size.lock().unwrap();
